@@ -40,7 +40,7 @@ impl Prop for C19 {
         Some("fault points of each generated conversation (all k for EOF / one-off / persistent / zero-write faults, all callback indexes for shim errors)".into())
     }
     fn cases(&self, tier: Tier) -> u64 {
-        tier.pick(400, 12_000)
+        tier.pick(2500, 25000)
     }
     fn choice_len(&self) -> usize {
         4096
